@@ -317,6 +317,9 @@ int main(int argc, char **argv) {
             // rows stored diagonal-first, handed over by shared_ptr: only for components that accept unsorted rows
             if ((c.coarsening == "aggregation" || c.coarsening == "smoothed_aggregation") &&
                 (c.relax == "gauss_seidel" || c.relax == "damped_jacobi" || c.relax == "spai0" || c.relax == "chebyshev") && g.coin(0.5)) c.shared_unsorted = true;
+            // the many-thread pass: every third case is the level-scheduled Gauss-Seidel sweep on a finest matrix whose rows
+            // are stored diagonal-first (non-copying constructor), the schedule must not depend on the order inside a row
+            if (small && r % 3 == 0) { c.relax = "gauss_seidel"; c.coarsening = (r / 3) % 2 ? "aggregation" : "smoothed_aggregation"; c.rprm.clear(); c.aggr_bs = 1; c.shared_unsorted = true; }
             c.ce = g.range(3, 12); if (g.coin(0.3)) c.ml = g.range(2, 3);
             obs_case(A, c, g, true, fam == 0 ? "grid" : "graph");
         }
